@@ -11,7 +11,8 @@
 // process is killed.  --pause-at K: print "PAUSED K ..." on stdout before call K and
 // freeze the process until a byte arrives on stdin.  --from-marker: numbering starts
 // when the process tries to open /verif-marker-begin.  --log-exec: every execve of a
-// descendant process is logged as "EXEC <pid> <path>" (not numbered).
+// descendant process is logged as "EXEC <pid> <path>" (not numbered).  An attempt of the
+// root process to open /verif-mark/<label> is logged as "MARK <label>" (phase labels).
 // Log lines: "<k> <tid> <syscall> <path> <len>".
 #define _GNU_SOURCE
 #include <errno.h>
@@ -206,6 +207,7 @@ int main(int argc, char **argv) {
                     case SYS_openat:
                         readstr(tid, r.rsi, p, sizeof p);
                         if (from_marker && !armed && !strcmp(p, "/verif-marker-begin")) { armed = 1; fprintf(logf_, "MARKER\n"); fflush(logf_); }
+                        if (!strncmp(p, "/verif-mark/", 12)) { fprintf(logf_, "MARK %s\n", p + 12); fflush(logf_); }
                         if (watched(p)) {
                             t->pending_open = 1;
                             strncpy(t->path, p, sizeof t->path - 1);
